@@ -4,11 +4,13 @@ import alloc_common as ac
 import reconciler_part
 import poolstatus_part
 import allocmaps_part
+import ctrl_common as cc
 
+CTRL_SIGS = {'ctrl-memory-differs-from-status', 'status-exclusivity'}
 SIGS = {'alloc-checksharing-vs-statement','alloc-ghost-or-lost','alloc-released-not-reusable','counters-assigned-wrong','counters-negative','counters-sum-wrong'}
 
 def run(ctx):
-    ctx.coq_build(["Properties/C11.v"] + ac.COQ_FILES + allocmaps_part.COQ_FILES)
+    ctx.coq_build(["Properties/C11.v"] + ac.COQ_FILES + allocmaps_part.COQ_FILES + cc.COQ_FILES)
     ctx.coq_theorems("Properties/C11.v", ac.CLOSURE + ["Proofs/AllocP.v", "Proofs/AllocPolicyP.v", "Proofs/AllocCountP.v", "Proofs/AllocFormulaP.v"] + allocmaps_part.CLOSURE)
     cases, st, mism, search = ac.run_alloc(ctx, SIGS)
     # the IPAddressPool status written by the pool status reconciler equals the allocator's counters
@@ -21,12 +23,22 @@ def run(ctx):
                                  "allocmaps_histories": n_am, "allocmaps_counters": st_am}
     # PoolReconciler / ConfigReconciler glue (cfg group): what the allocator is handed is config.For of the current cluster state
     n_rec, st_rec = reconciler_part.run_reconciler(ctx, None)
+    # "memory equals what a fresh controller would rebuild" one level up: the controller (convergeBalancer / SetBalancer behind the real
+    # ServiceReconciler) must keep the allocator equal to the Services' statuses across restarts, malformed requests and failed writes
+    ccases, cst, cmism, csearch = cc.run_ctrl(ctx, CTRL_SIGS, n_quick=64)
+    ctx.cov["correspondence"].update({"controller_histories": len(ccases), "controller_mismatches": len(cmism), "controller_counters": cst})
+    search0 = search
+    def search():
+        search0()
+        if not ctx.violations:
+            csearch()
     ctx.trusted += ["internal/k8s/controllers/pool_status_controller.go is not modelled: the real PoolStatusReconciler is driven with scripted counters and its written status compared with them (oracle only)",
                     "model covers internal/allocator/allocator.go: Assign, Unassign, Allocate, AllocateFromPool, AllocateFromPoolForAdditionalFamily, SetPools, checkSharing, sharingOK, poolFor, isPoolCompatibleWithService, pinnedPoolsForService, findBestPoolForService, getFreeIPsFromPool/getIPFromCIDR, poolCount, updatePoolStats, CountersForPool; allocation.go selectIPsForFamilyAndPolicy",
                     "the allocator's derived maps (sharingKeyForIP, portsInUse, servicesOnIP, poolIP*InUse) are modelled as functions of the service->allocation map; their agreement with the Go maps is checked after every operation by checkSharing probes and counters (correspondence), not proved",
                     "checked nondeterminism: allocation results are taken from the implementation and validated by allocate_spec/from_pool_spec/additional_spec; sort.Slice in sortPools and map iteration order are not modelled",
                     "domain: services have >= 1 port (API server rule); pools pairwise disjoint (C08)"]
-    ctx.finish(len(cases), distinct,
+    ctx.trusted += cc.TRUST
+    ctx.finish(len(cases) + len(ccases), distinct,
                "random histories (10-35 operations: Assign/Unassign/Allocate/AllocateFromPool/Additional/SetPools incl. rename/regroup) over 1-4 small pools and 2-5 services, "
                "plus pool layouts with large prefixes for the counters; after every operation results, IPs/Pool of all services, counters of all pools and 6 checkSharing probes are compared "
                "with the model and the property oracles are evaluated on the implementation; non-trivial = history with >= 3 operations; distinct by content",
